@@ -452,7 +452,12 @@ H_TLES = {
 H_DTS = {"d1": 43200 * 10 ** 6, "d2": -86400 * 10 ** 6}
 
 
-def _ops(kind):
+def _ops(kind, family="multi"):
+    if family == "alias":
+        # one propagator, two element sets; propagation by Date and by the equivalent timedelta; in-place mutation of the
+        # state returned last (frame setter, form setter, coordinate write)
+        return ([["assign", 0, x] for x in "AB"] + [["prop", 0, d] for d in ("d1", "d2")] + [["propt", 0, d] for d in ("d1", "d2")]
+                + [["mut", 0, how] for how in ("frame", "form", "write")])
     ops = [["assign", s, x] for s in (0, 1) for x in "ABC"] + [["prop", s, d] for s in (0, 1) for d in ("d1", "d2")]
     if kind == "wrapper":
         ops += [["copy", s] for s in (0, 1)]
@@ -460,84 +465,113 @@ def _ops(kind):
     return ops
 
 
-CHECK_OPS = ("prop", "oprop", "ocopy")
+CHECK_OPS = ("prop", "propt", "oprop", "ocopy")
 
 
-def enum_histories(kind, depth):
+def enum_histories(kind, depth, family="multi"):
     """All valid histories of 1..depth operations ending in a propagation; slot 0 is the first slot used."""
-    ops = _ops(kind)
+    ops = _ops(kind, family)
 
-    def rec(hist, slots, used1):
-        # slots[s]: None = no object, "" = unbound object, "A"/"B"/"C" = bound
+    def rec(hist, slots, used1, have_result):
+        # slots[s]: None = no object, "" = unbound object, "A"/"B"/"C" = bound; have_result[s]: slot s returned a state
         for op in ops:
             name = op[0]
-            s = op[1] if name in ("assign", "prop", "copy") else None
+            s = op[1] if name in ("assign", "prop", "propt", "copy", "mut") else None
             if s == 1 and not used1 and slots[0] is None:
                 continue  # symmetry: the first slot touched is slot 0
-            if name == "prop" and not slots[s]:
+            if name in ("prop", "propt") and not slots[s]:
                 continue
             if name == "copy" and slots[s] is None:
+                continue
+            if name == "mut" and not have_result[s]:
                 continue
             h2 = hist + [op]
             if name in CHECK_OPS:
                 yield h2
             if len(h2) < depth:
-                s2 = list(slots)
+                s2, r2 = list(slots), list(have_result)
                 if name == "assign":
                     s2[s] = op[2]
                 elif name == "copy":
                     s2[1 - s] = ""
-                yield from rec(h2, s2, used1 or s == 1)
+                elif name in ("prop", "propt"):
+                    r2[s] = True
+                yield from rec(h2, s2, used1 or s == 1, r2)
 
-    yield from rec([], [None, None], False)
+    yield from rec([], [None, None], False, [False, False])
+
+
+def _snapshot(sv):
+    import numpy as np
+
+    return ([float(c) for c in np.array(sv, dtype=float)], getattr(sv.frame, "name", str(sv.frame)), sv.form.name, str(sv.date))
 
 
 def exec_history(arg):
-    """Run in the pristine library state: execute the operations, return the observation of the last one."""
+    """Run in the pristine library state: execute the operations; return the observation of the last one plus the
+    identity / immutability observations on every state object returned during the history."""
     import numpy as np
-    from datetime import timedelta
+    from datetime import datetime, timedelta
     from beyond.dates import Date
     from beyond.io.tle import Tle
     from beyond.propagators.sgp4 import Sgp4
     from beyond.propagators.sgp4beta import Sgp4Beta
 
     kind, ops, texts, epoch_iso = arg["kind"], arg["ops"], arg["texts"], arg["epoch"]
-    from datetime import datetime
-
     epoch = datetime.strptime(epoch_iso, "%Y-%m-%dT%H:%M:%S.%f")
     K = Sgp4 if kind == "wrapper" else Sgp4Beta
     slots = [None, None]
-    bound = [None, None]
+    last_result = [None, None]  # index into `returned`
+    returned = []  # [state object, snapshot taken when it was returned / after the harness mutated it, op index]
     obs = None
     for n_op, op in enumerate(ops):
         name = op[0]
         last = n_op == len(ops) - 1
+        sv = None
         try:
             if name == "assign":
                 s, x = op[1], op[2]
                 if slots[s] is None:
                     slots[s] = K()
                 slots[s].orbit = Tle(texts[x]).orbit()
-                bound[s] = x
-                sv = None
             elif name == "copy":
                 s = op[1]
                 slots[1 - s] = slots[s].copy()
-                bound[1 - s] = None
-                sv = None
+            elif name == "mut":
+                k = last_result[op[1]]
+                obj = returned[k][0]
+                if op[2] == "frame":
+                    obj.frame = "ITRF"
+                elif op[2] == "form":
+                    obj.form = "spherical"
+                else:
+                    obj[0] = obj[0] + 1000.0
+                returned[k][1] = _snapshot(obj)
             else:
-                date = Date(epoch) + timedelta(microseconds=H_DTS[op[2]])
+                td = timedelta(microseconds=H_DTS[op[2]])
+                date = Date(epoch) + td
                 if name == "prop":
                     sv = slots[op[1]].propagate(date)
+                elif name == "propt":
+                    sv = slots[op[1]].propagate(td)
                 elif name == "oprop":
                     sv = Tle(texts[op[1]]).orbit().propagate(date)
                 else:  # ocopy
                     sv = Tle(texts[op[1]]).orbit().copy().propagate(date)
         except Exception as e:
             return dict(exc=repr(e), at=n_op)
-        if last:
-            obs = dict(x=[float(c) for c in np.array(sv, dtype=float)], frame=getattr(sv.frame, "name", str(sv.frame)),
-                       form=sv.form.name, date_ok=bool(sv.date == date))
+        if sv is not None:
+            alias = [k for k, (o, _, _) in enumerate(returned) if o is sv]
+            if last:
+                x, frame, form, _ = _snapshot(sv)
+                obs = dict(x=x, frame=frame, form=form, date_ok=bool(sv.date == date), alias=[returned[k][2] for k in alias])
+            if not alias:
+                returned.append([sv, _snapshot(sv), n_op])
+            if name in ("prop", "propt"):
+                last_result[op[1]] = alias[0] if alias else len(returned) - 1
+    # a returned object never changes after being returned (other than by the caller's own mutation)
+    obs["changed"] = [dict(returned_by_op=n, was=list(snap), now=list(_snapshot(o))) for o, snap, n in returned[:-1] if _snapshot(o) != snap] \
+        if not obs["alias"] else []
     return obs
 
 
@@ -589,11 +623,16 @@ def _hist_world(kind):
 
 def _valid(ops):
     slots = [None, None]
+    res = [False, False]
     for op in ops:
         if op[0] == "assign":
             slots[op[1]] = op[2]
-        elif op[0] == "prop":
+        elif op[0] in ("prop", "propt"):
             if not slots[op[1]]:
+                return False
+            res[op[1]] = True
+        elif op[0] == "mut":
+            if not res[op[1]]:
                 return False
         elif op[0] == "copy":
             if slots[op[1]] is None:
